@@ -6,3 +6,5 @@ git -C /repo apply "$P" || exit 2
 for c in "$@"; do (cd /verif && ./check $c quick 2>&1 | grep -E "^VIOLATION|^check " | cut -c1-220); done
 git -C /repo checkout -- . && git -C /repo clean -fdq
 git -C /repo status --short | head -3
+# Generated/*.lean now describe the mutant: regenerate them from the restored tree
+(cd /verif/extract && GOFLAGS=-mod=mod GOPROXY=off GOSUMDB=off GOTOOLCHAIN=local go build -tags verif -o /tmp/extract.$$ . && /tmp/extract.$$ /repo /verif/lean/RedactVerif/Generated >/dev/null; rm -f /tmp/extract.$$)
